@@ -1,6 +1,6 @@
 (* C18 - remote contexts are unique per id, supply their workers' work, and clean up.
    The table logic of the server (Server/Model.v) against its dictionary specification [ctx_get]. *)
-From PW Require Import Server.Model.
+From PW Require Import Server.Model Server.CtxWork Gen.CtxWork.
 Open Scope Z_scope.
 
 Theorem C18_create :
@@ -46,8 +46,23 @@ Theorem C18_refuted_if_a_duplicate_overwrites_the_first_context :
     r = RBool true /\ ctx_get (contexts s2) 1 <> ctx_get (contexts s1) 1.
 Proof. exists (mkSF true true true true false true true). split; [reflexivity|]. vm_compute. split; [reflexivity|discriminate]. Qed.
 
+(* "workers created with that context id execute the context's target with the context's defaults" - whatever work their creator
+   passed along (a Pool always passes its own target): the three sites which decide it have the shape the proof needs *)
+Theorem C18_source_shape_of_the_work_path : good_cwflags gen_cwflags = true.
+Proof. reflexivity. Qed.
+
+Theorem C18_context_workers_execute_the_context_work : forall c own, executes gen_cwflags (Some c) own = Some c.
+Proof. intros c own. exact (context_workers_execute_the_context_work gen_cwflags c own C18_source_shape_of_the_work_path). Qed.
+
+Theorem C18_refuted_if_the_creator_ships_its_work_and_the_child_prefers_it : forall c o,
+  executes (mkCW true false false) (Some c) (Some o) = Some o.
+Proof. exact refuted_without_both_guards. Qed.
+
 Print Assumptions C18_create.
 Print Assumptions C18_delete.
 Print Assumptions C18_unknown_context_never_harms.
 Print Assumptions C18_server_survives_every_history.
 Print Assumptions C18_refuted_if_a_duplicate_overwrites_the_first_context.
+Print Assumptions C18_source_shape_of_the_work_path.
+Print Assumptions C18_context_workers_execute_the_context_work.
+Print Assumptions C18_refuted_if_the_creator_ships_its_work_and_the_child_prefers_it.
